@@ -83,6 +83,9 @@ pub struct NodeObs {
     pub walk_out: Vec<(usize, usize)>,
     pub walk_in: Vec<(usize, usize)>,
     pub walk_und: Vec<(usize, usize)>,
+    pub walk_und_edges: Vec<usize>,
+    pub walk_und_pairs: Vec<(usize, usize)>,
+    pub walk_out_edges: Vec<usize>,
 }
 
 #[derive(Clone, Debug, PartialEq, Default)]
@@ -148,6 +151,11 @@ pub trait AdjSut: Sized + Clone {
     fn set_edge_w(&mut self, e: usize, w: u32, how: WHow) -> bool;
     /// kind: 0 = (node,node) 1 = (node,edge) 2 = (edge,node) 3 = (edge,edge)
     fn index_twice(&mut self, kind: u8, i: usize, j: usize, w1: u32, w2: u32, frozen: bool);
+    /// `Frozen::index_twice_mut` where the type offers it (Graph), the plain one otherwise
+    fn index_twice_frozen(&mut self, kind: u8, i: usize, j: usize, w1: u32, w2: u32);
+    /// element stream of the own graph -> `filter_elements` -> `from_elements`; returns what the
+    /// closure was shown: (is_node, position in its class, weight seen, kept, new weight)
+    fn filter_elements_replace(&mut self, seed: u64, keep_n: u32, keep_e: u32, next_w: &mut u32) -> Vec<(bool, usize, u32, bool, u32)>;
     fn rewrite_node_weights(&mut self, next_w: &mut u32) -> Vec<(u32, u32)>;
     fn rewrite_edge_weights(&mut self, next_w: &mut u32) -> Vec<(u32, u32)>;
     fn retain_nodes(&mut self, seed: u64, keep_permille: u32, touch: bool, next_w: &mut u32, log: &mut VisitLog);
@@ -171,6 +179,32 @@ pub trait AdjSut: Sized + Clone {
     fn edge_listing(&self) -> Vec<(usize, u32)>;
     /// C06 step invariant through the visit traits (and adaptors)
     fn visit_check(&mut self, seed: u64) -> Result<(), crate::engines::visit::VErr>;
+}
+
+/// The element stream of a graph given as (index, weight) nodes and (a, b, weight) edges in
+/// index order: node positions are ranks; `interleave` emits every edge right after the later
+/// of its endpoints instead of after all nodes (both are legal streams).
+pub fn element_stream(nodes: Vec<(usize, u32)>, edges: Vec<(usize, usize, u32)>, interleave: bool) -> Vec<Element<u32, u32>> {
+    let rank: std::collections::BTreeMap<usize, usize> = nodes.iter().enumerate().map(|(r, n)| (n.0, r)).collect();
+    let mut out = Vec::new();
+    if !interleave {
+        for n in &nodes {
+            out.push(Element::Node { weight: n.1 });
+        }
+        for e in &edges {
+            out.push(Element::Edge { source: rank[&e.0], target: rank[&e.1], weight: e.2 });
+        }
+    } else {
+        for (r, n) in nodes.iter().enumerate() {
+            out.push(Element::Node { weight: n.1 });
+            for e in &edges {
+                if rank[&e.0].max(rank[&e.1]) == r {
+                    out.push(Element::Edge { source: rank[&e.0], target: rank[&e.1], weight: e.2 });
+                }
+            }
+        }
+    }
+    out
 }
 
 #[inline]
@@ -426,8 +460,47 @@ macro_rules! common_methods {
         fn edge_listing(&self) -> Vec<(usize, u32)> {
             self.edge_references().map(|e| (e.id().index(), *e.weight())).collect()
         }
+        fn filter_elements_replace(&mut self, seed: u64, keep_n: u32, keep_e: u32, next_w: &mut u32) -> Vec<(bool, usize, u32, bool, u32)> {
+            use petgraph::data::ElementIterator;
+            let elements = element_stream(
+                self.node_references().map(|n| (n.id().index(), *n.weight())).collect(),
+                self.edge_references().map(|e| (e.source().index(), e.target().index(), *e.weight())).collect(),
+                seed & 1 == 1,
+            );
+            let mut log = Vec::new();
+            let (mut npos, mut epos) = (0usize, 0usize);
+            let it = elements.into_iter().filter_elements(|elt| match elt {
+                Element::Node { weight } => {
+                    let keep = keep_decision(*weight, seed, keep_n);
+                    let seen = *weight;
+                    if keep {
+                        *next_w += 1;
+                        *weight = *next_w;
+                    }
+                    log.push((true, npos, seen, keep, *weight));
+                    npos += 1;
+                    keep
+                }
+                Element::Edge { weight, .. } => {
+                    let keep = keep_decision(*weight, seed ^ 0xE, keep_e);
+                    let seen = *weight;
+                    if keep {
+                        *next_w += 1;
+                        *weight = *next_w;
+                    }
+                    log.push((false, epos, seen, keep, *weight));
+                    epos += 1;
+                    keep
+                }
+            });
+            let g = <Self as FromElements>::from_elements(it);
+            *self = g;
+            log
+        }
         fn index_twice(&mut self, kind: u8, i: usize, j: usize, w1: u32, w2: u32, frozen: bool) {
-            let _ = frozen;
+            if frozen {
+                return self.index_twice_frozen(kind, i, j, w1, w2);
+            }
             match kind {
                 0 => {
                     let (x, y) = self.index_twice_mut(ni::<Ix>(i), ni::<Ix>(j));
@@ -510,6 +583,22 @@ macro_rules! snapshot_common {
                 no.walk_und.push((0, n.index()));
                 if no.walk_und.len() > 100_000 { panic!("detached walker does not terminate"); }
             }
+            // the three stepping methods of one walker kind must tell the same story
+            let mut w = g.neighbors_undirected(ix).detach();
+            while let Some(e) = w.next_edge(g) {
+                no.walk_und_edges.push(e.index());
+                if no.walk_und_edges.len() > 100_000 { panic!("detached walker does not terminate"); }
+            }
+            let mut w = g.neighbors_undirected(ix).detach();
+            while let Some((e, n)) = w.next(g) {
+                no.walk_und_pairs.push((e.index(), n.index()));
+                if no.walk_und_pairs.len() > 100_000 { panic!("detached walker does not terminate"); }
+            }
+            let mut w = g.neighbors_directed(ix, Direction::Outgoing).detach();
+            while let Some(e) = w.next_edge(g) {
+                no.walk_out_edges.push(e.index());
+                if no.walk_out_edges.len() > 100_000 { panic!("detached walker does not terminate"); }
+            }
             $obs.nodes.push(no);
         }
         for &(a, b) in &$plan.pairs {
@@ -544,6 +633,31 @@ impl<Ty: Flip, Ix: IndexType> AdjSut for Graph<u32, u32, Ty, Ix> {
         let g = std::mem::take(self);
         let s: StableGraph<u32, u32, Ty, Ix> = StableGraph::from(g);
         *self = Graph::from(s);
+    }
+    fn index_twice_frozen(&mut self, kind: u8, i: usize, j: usize, w1: u32, w2: u32) {
+        let mut f = petgraph::graph::Frozen::new(self);
+        match kind {
+            0 => {
+                let (x, y) = f.index_twice_mut(ni::<Ix>(i), ni::<Ix>(j));
+                *x = w1;
+                *y = w2;
+            }
+            1 => {
+                let (x, y) = f.index_twice_mut(ni::<Ix>(i), ei::<Ix>(j));
+                *x = w1;
+                *y = w2;
+            }
+            2 => {
+                let (x, y) = f.index_twice_mut(ei::<Ix>(i), ni::<Ix>(j));
+                *x = w1;
+                *y = w2;
+            }
+            _ => {
+                let (x, y) = f.index_twice_mut(ei::<Ix>(i), ei::<Ix>(j));
+                *x = w1;
+                *y = w2;
+            }
+        }
     }
     fn visit_check(&mut self, seed: u64) -> Result<(), crate::engines::visit::VErr> {
         crate::engines::visit::check_graph(self, seed)?;
@@ -606,6 +720,9 @@ impl<Ty: Flip, Ix: IndexType> AdjSut for StableGraph<u32, u32, Ty, Ix> {
         let s = std::mem::take(self);
         let g: Graph<u32, u32, Ty, Ix> = Graph::from(s);
         *self = StableGraph::from(g);
+    }
+    fn index_twice_frozen(&mut self, kind: u8, i: usize, j: usize, w1: u32, w2: u32) {
+        self.index_twice(kind, i, j, w1, w2, false)
     }
     fn visit_check(&mut self, seed: u64) -> Result<(), crate::engines::visit::VErr> {
         crate::engines::visit::check_stable(self, seed)?;
